@@ -39,8 +39,15 @@ func (cm *MemChatManager) New(cc *ClientConn) ChatID {
 	cm.mu.Lock()
 	defer cm.mu.Unlock()
 
+	// Draw again when the ID is the public chat's (all zero) or belongs to a chat that is still open:
+	// taking it would route the new chat's lines to everybody, or drop the open chat's members.
 	var randID [4]byte
-	_, _ = rand.Read(randID[:])
+	for {
+		_, _ = rand.Read(randID[:])
+		if _, taken := cm.chats[randID]; !taken && randID != [4]byte{} {
+			break
+		}
+	}
 
 	cm.chats[randID] = &PrivateChat{ClientConn: make(map[[2]byte]*ClientConn)}
 
